@@ -80,6 +80,7 @@ package interp
 //@   modifies n.rval, n.typ
 //@   ensures basic-target-checked: err == nil && old(n.typ != nil && n.typ.untyped && n.typ.cat != nilT) && typ != nil && !typ.untyped && basicTarget(typ) && old(isC(n.rval)) ==> representableConst(old(cOf(n.rval)), typ.TypeOf())
 //@   ensures typed-node-untouched: old(n.typ == nil || !n.typ.untyped) ==> err == nil && n.rval == old(n.rval) && n.typ == old(n.typ)
+//@   ensures converted-constant-takes-the-target-type: err == nil && old(n.typ != nil && n.typ.untyped && n.typ.cat != nilT) && typ != nil && !typ.untyped && basicTarget(typ) ==> n.typ == typ
 //@   canary err == nil ==> n.typ == typ
 
 // return statement (cfg.go, post-order case returnStmt): every returned untyped constant is checked for
@@ -145,6 +146,9 @@ package interp
 //@   modifies n.child[0].rval, n.child[0].typ, n.child[1].rval, n.child[1].typ
 //@   let c0: n.child[0]
 //@   let c1: n.child[1]
+//@   -- Go spec: "the operand types must be identical" for the arithmetic operators, after an untyped constant
+//@   -- operand has been converted to the type of the other operand (a quotient of two constants is folded first)
+//@   ensures arithmetic-operands-have-identical-types: err == nil && !isShiftAction(ite(isAssignAction(n.action), n.action - 1, n.action)) && !isComparisonAction(ite(isAssignAction(n.action), n.action - 1, n.action)) && !(n.action == aQuo && old(c0.rval.IsValid()) && old(c1.rval.IsValid())) ==> c0.typ.equals(c1.typ)
 //@   ensures comparison-constant-representable: err == nil && (n.action == aEqual || n.action == aNotEqual || n.action == aLower || n.action == aLowerEqual || n.action == aGreater || n.action == aGreaterEqual) && old(c1.typ != nil && c1.typ.untyped && c1.typ.cat != nilT && isC(c1.rval)) && old(c0.typ != nil && !c0.typ.untyped && basicTarget(c0.typ)) ==> representableConst(old(cOf(c1.rval)), old(c0.typ).TypeOf())
 
 // send statement (cfg.go, post-order case sendStmt): a sent untyped constant takes the channel's
